@@ -25,6 +25,16 @@ def run(ctx):
               ("4", "CVSS:4.0/AV:N/AC:L/AT:N/PR:N/UI:N/VC:N/VI:N/VA:N/SC:N/SI:N/SA:N"),
               ("4", "CVSS:4.0/AV:N/AC:L/AT:N/PR:N/UI:N/VC:H/VI:H/VA:H/SC:H/SI:H/SA:H")]
     items += [("2", s) for s in core.v2_low_family()[:: (1 if ctx.tier == "thorough" else 3)]]
+    # "every ACCEPTED vector": also whatever near-valid strings the constructors accept (none, on a tree whose
+    # acceptance is exactly the grammar except through field order / spelling)
+    extra = []
+    for ver, s in items[: ctx.n(4000, 60000)]:
+        for _ in range(2):
+            t = core.edit(s, rng, ver)
+            if t != s and obs.construct(ver, t)[0] is not None:
+                extra.append((ver, t))
+    ctx.extra["accepted_edited_strings"] = len(extra)
+    items += extra
     ctx.count(len(items) * 4)
     ctx.sample({"vector": items[0][1], "options": "sort x minimal"})
     for ver in "234":
